@@ -63,6 +63,7 @@ func C18(c *Ctx) error {
 		{"nested_same_name": true}, {"base_var": true}, {"repeated_var": true}, {"hostile_values": true, "annotated": true},
 		{"imported": true, "multi_service": true, "recursive": true}, {"builtin_names": true, "headers": true},
 		{"multi_service": true, "empty_service": true}, {"query_named_like_path_var": true}, {"two_vars_in_segment": true}, {"go_name_collision": true},
+		{"base_var": true, "base_var_field": true},
 	}
 	for k, sh := range forced {
 		for j := 0; j < c.N(2, 12); j++ {
